@@ -177,3 +177,110 @@ package replication
 //@   before sync.(*WaitGroup).Wait assert [C15.close.signal] chanClosed(w.closer)
 //@   before table.(*Manager).ReturnTable assert [C15.close.order+C05] w.wg.waited && name == w.table
 //@   modifies family(CH_closed), family(G_any_waited), w.engine.Manager.store.rHas, w.engine.Manager.store.rPair, w.engine.Manager.store.nwk, w.engine.Manager.store.wVal, w.engine.Manager.store.wVer, w.engine.Manager.store.wDel, w.engine.Manager.store.wPrevHas, w.engine.Manager.store.wPrev
+
+// ---------------------------------------------------------------- the worker manager (C05, C15)
+
+// one worker per catalogued table, built for THAT table from the shared factory; the registry knows
+// exactly the started workers; a worker taken out of service is closed (which returns its lease)
+// before it leaves the registry; the service loop is left only through the closer channel
+//@ import clock "github.com/benbjohnson/clock"
+//@ trustframe "github.com/benbjohnson/clock" "github.com/prometheus/client_golang/prometheus"
+//@ func newThrottle
+//@   assumed
+//@   modifies nothing
+//@ func storage.(*Engine).Config
+//@   assumed
+//@   modifies nothing
+//@ func (*workerFactory).create
+//@   maypanic
+//@   requires f != nil && f.log != nil && f.engine != nil
+//@   ensures [C05.factory.worker+C15] result != nil && fresh(result) && result.workerFactory == f && result.table == table && result.closer != nil && !chanClosed(result.closer) && result.store.table == table && result.queue.table == table && result.immediate != nil
+//@   modifies nothing
+//@ func (*Manager).hasWorker
+//@   requires m != nil
+//@   ensures [C05.mgr.has] result == has(m.workers.registry, name)
+//@   modifies nothing
+//@ func (*worker).Start
+//@   assumed
+//@   modifies nothing
+//@ func (*Manager).startWorker
+//@   maypanic
+//@   requires m != nil && m.log != nil && worker != nil && m.workers.registry != nil
+//@   before replication.(*worker).Start assert [C05.mgr.start] w == worker && has(m.workers.registry, worker.table) && m.workers.registry[worker.table] == worker
+//@   ensures has(m.workers.registry, worker.table) && m.workers.registry[worker.table] == worker
+//@   modifies elems(m.workers.registry)
+//@ func (*Manager).stopWorker
+//@   maypanic
+//@   requires m != nil && m.log != nil && worker != nil && m.workers.registry != nil && worker.log != nil && worker.engine != nil && worker.engine.Manager != nil && worker.engine.Manager.store != nil && !chanClosed(worker.closer)
+//@   before replication.(*worker).Close assert [C15.mgr.stop+C05] w == worker
+//@   ensures [C05.mgr.unregister] !has(m.workers.registry, worker.table)
+//@   modifies elems(m.workers.registry), family(CH_closed), family(G_any_waited), worker.engine.Manager.store.rHas, worker.engine.Manager.store.rPair, worker.engine.Manager.store.nwk, worker.engine.Manager.store.wVal, worker.engine.Manager.store.wVer, worker.engine.Manager.store.wDel, worker.engine.Manager.store.wPrevHas, worker.engine.Manager.store.wPrev
+// the manager's service loop: a failed reconciliation skips one round, it does not end the service
+// reconcileTables: a successful round has read the leader's table list AND the follower's own
+// catalogue (whatever the leader's list holds - also when it is empty); only tables found absent on
+// the leader are deleted, only tables found missing here are created
+//@ import slices "slices"
+//@ iface regattapb.MetadataClient.Get
+//@   assumed
+//@   params c, ctx, in, opts
+//@   results resp, err
+//@   ensures err == nil ==> resp != nil
+//@   modifies nothing
+//@ func regattapb.(*MetadataResponse).GetTables
+//@   assumed
+//@   modifies nothing
+//@ func slices.ContainsFunc[[]*regattapb.Table,*regattapb.Table]
+//@   assumed
+//@   modifies nothing
+//@ func slices.ContainsFunc[[]table.Table,table.Table]
+//@   assumed
+//@   modifies nothing
+//@ func (*Manager).reconcileTables
+//@   maypanic
+//@   requires m != nil && m.metadataClient != nil && m.engine != nil && m.engine.Manager != nil && m.engine.Manager.store != nil && m.engine.Manager.nh != nil
+//@   ensures [C05.tables.read+C14] result == nil ==> fresh(m.engine.Manager.lastTables)
+//@   before table.(*Manager).DeleteTable assert [C05.tables.prune] exists j int :: 0 <= j && j < len(toDelete) && toDelete[j] == name
+//@   before table.(*Manager).CreateTable assert [C05.tables.create] exists j int :: 0 <= j && j < len(toCreate) && toCreate[j] == name
+//@   modifies m.engine.Manager.lastTables, family(G_any_rHas), family(G_any_rPair), family(G_any_nwk), family(G_any_wVal), family(G_any_wVer), family(G_any_wDel), family(G_any_wPrevHas), family(G_any_wPrev), world.clock
+//@   loop 0 invariant -1 <= rangeindex && rangeindex < len(followerTables) && fresh(m.engine.Manager.lastTables) && (isNilSlice(toDelete) || fresh(toDelete))
+//@   loop 1 invariant -1 <= rangeindex && rangeindex < len(leaderTables) && fresh(m.engine.Manager.lastTables) && (isNilSlice(toDelete) || fresh(toDelete)) && (isNilSlice(toCreate) || fresh(toCreate))
+//@   loop 2 invariant -1 <= rangeindex && rangeindex < len(toDelete) && m.engine == old(m.engine) && m.engine.Manager == old(m.engine.Manager) && m.engine.Manager.store == old(m.engine.Manager.store) && m.engine.Manager.nh == old(m.engine.Manager.nh) && fresh(m.engine.Manager.lastTables)
+//@   loop 3 invariant -1 <= rangeindex && rangeindex < len(toCreate) && m.engine == old(m.engine) && m.engine.Manager == old(m.engine.Manager) && m.engine.Manager.store == old(m.engine.Manager.store) && m.engine.Manager.nh == old(m.engine.Manager.nh) && fresh(m.engine.Manager.lastTables)
+//@ func (*Manager).reconcileWorkers
+//@   assumed
+//@   modifies nothing
+//@ func (*Manager).Start$1
+//@   maypanic
+//@   requires *m != nil && (*m).log != nil && allocated((*m).closer)
+//@   modifies nothing
+//@   loop 0 invariant *m == old(*m) && (*m).log != nil && (*m).closer == old((*m).closer) && t != nil && t.C != (*m).closer
+//@   loop 0 leave [C05.mgr.alive+C15] world.lastSel == (*m).closer
+
+// NewManager (replication): the factory every worker is built from carries the engine, the queue, the
+// configured intervals / timeouts, the log and snapshot clients of the leader connection, and a
+// recovery semaphore sized by MaxRecoveryInFlight (not by a transfer-rate setting)
+//@ import semaphore "golang.org/x/sync/semaphore"
+//@ import kv "github.com/jamf/regatta/storage/kv"
+//@ func semaphore.NewWeighted
+//@   assumed
+//@   ensures result != nil && fresh(result)
+//@   modifies nothing
+//@ func regattapb.NewMetadataClient
+//@   assumed
+//@   ensures result != nil
+//@   modifies nothing
+//@ func regattapb.NewLogClient
+//@   assumed
+//@   ensures result != nil
+//@   modifies nothing
+//@ func regattapb.NewSnapshotClient
+//@   assumed
+//@   ensures result != nil
+//@   modifies nothing
+//@ func NewManager
+//@   maypanic
+//@   requires e != nil
+//@   before semaphore.NewWeighted assert [C05.mgr.semaphore] n == cfg.Workers.MaxRecoveryInFlight
+//@   ensures [C05.mgr.factory+C15] result != nil && fresh(result) && result.engine == e && result.factory != nil && result.factory.engine == e && result.factory.queue == queue && result.factory.pollInterval == cfg.Workers.PollInterval && result.factory.leaseInterval == cfg.Workers.LeaseInterval && result.factory.logTimeout == cfg.Workers.LogRPCTimeout && result.factory.snapshotTimeout == cfg.Workers.SnapshotRPCTimeout && result.factory.maxSnapshotRecv == cfg.Workers.MaxSnapshotRecv && result.factory.reconcileInterval == cfg.ReconcileInterval && result.reconcileInterval == cfg.ReconcileInterval && result.factory.recoverySemaphore != nil && result.factory.logClient != nil && result.factory.snapshotClient != nil && result.factory.log != nil && result.workers.registry != nil && result.closer != nil && !chanClosed(result.closer)
+//@   ensures [C05.mgr.store] typeIs(result.factory.store, *kv.RaftStore) && asType(result.factory.store, *kv.RaftStore) != nil && asType(result.factory.store, *kv.RaftStore).NodeHost == e.NodeHost && asType(result.factory.store, *kv.RaftStore).ClusterID == replicationStoreID
+//@   modifies nothing
